@@ -448,6 +448,7 @@ type TablesResult struct {
 	ErrorShift     []int             `json:"error_shift_states"`
 	CanRecoverRows []int             `json:"canrecover_rows"`
 	GrammarSource  string            `json:"grammar_source"`
+	CanonicalLR1   int               `json:"canonical_lr1_states"` // informational: size of the canonical collection of the grammar
 }
 
 func tablesMain(args []string) int {
@@ -668,6 +669,7 @@ func validateFrontend(repo string) (*TablesResult, error) {
 		return nil, err
 	}
 	res.Terminals, res.Nonterminals = g.nT, len(g.NTs)
+	res.CanonicalLR1 = len(canonicalLR1(g).States)
 
 	// ---- (V) least item-set annotation --------------------------------------
 	nS := len(ft.Actions)
@@ -778,7 +780,7 @@ func validateFrontend(repo string) (*TablesResult, error) {
 		// action cells
 		for key := range ft.Actions[s] {
 			if key < 0 || key >= g.nT {
-				mm("action", s, strconv.Itoa(key), "nil", fmt.Sprint(ft.Actions[s][key]), "token type outside the alphabet")
+				mm("action-cell", s, strconv.Itoa(key), "nil", fmt.Sprint(ft.Actions[s][key]), "token type outside the alphabet")
 			}
 		}
 		for t := 0; t < g.nT; t++ {
@@ -833,13 +835,13 @@ func validateFrontend(repo string) (*TablesResult, error) {
 				if len(exp) > 1 {
 					msg = "conflict: the annotation gives two candidate actions"
 				}
-				mm("action", s, g.Terms[t], expStr, foundStr, msg)
+				mm("action-cell", s, g.Terms[t], expStr, foundStr, msg)
 			}
 		}
 		// goto cells
 		for k, ts := range ft.Goto[s] {
 			if _, ok := ntIdx[k]; !ok {
-				mm("goto", s, k, "none", fmt.Sprint(ts), "goto entry for a symbol that is not a nonterminal of the grammar")
+				mm("goto-cell", s, k, "none", fmt.Sprint(ts), "goto entry for a symbol that is not a nonterminal of the grammar")
 			}
 		}
 		for n := range g.NTs {
@@ -855,13 +857,13 @@ func validateFrontend(repo string) (*TablesResult, error) {
 			ts := ft.Goto[s][g.NTs[n]]
 			switch {
 			case len(ts) > 1:
-				mm("goto", s, g.NTs[n], "one entry", fmt.Sprint(ts), "duplicate key")
+				mm("goto-cell", s, g.NTs[n], "one entry", fmt.Sprint(ts), "duplicate key")
 			case need && len(ts) == 0:
-				mm("goto", s, g.NTs[n], "defined", "none", "")
+				mm("goto-cell", s, g.NTs[n], "defined", "none", "")
 			case need && (ts[0] < 0 || ts[0] >= nS):
-				mm("goto", s, g.NTs[n], "defined", strconv.Itoa(ts[0]), "target out of range")
+				mm("goto-cell", s, g.NTs[n], "defined", strconv.Itoa(ts[0]), "target out of range")
 			case !need && len(ts) == 1:
-				mm("goto", s, g.NTs[n], "none", strconv.Itoa(ts[0]), "")
+				mm("goto-cell", s, g.NTs[n], "none", strconv.Itoa(ts[0]), "")
 			}
 		}
 		// report
